@@ -386,9 +386,12 @@ def run(prop, tier, seed, rep):
     for d in rep.demoted:
         c = registry.CONTRACTS.get(d["function"])
         if c is not None and (c.no_runtime or c.body is not None):
-            print("UNDECIDED property=%s function=%s: %s (no obligation could be generated and no run-time stand-in exists)" % (
-                prop, d["function"], d["reason"][:200]))
-            if code == 0:
+            covered = bool(pinfo.get("runtime_checks"))
+            print("UNDECIDED property=%s function=%s: %s (no obligation could be generated for it on this tree; %s)" % (
+                prop, d["function"], d["reason"][:200],
+                "the property's bounded stand-in ran and is the only coverage of this function on this run" if covered
+                else "nothing else covers it"))
+            if code == 0 and not covered:
                 code = 2
     return code
 
